@@ -96,7 +96,7 @@ type c19Expect struct {
 
 func (c19) Run(e *Env) {
 	e.ProbeDecl("event-via-datagram", "event-via-http", "parked-for-lookup", "lookup-success", "lookup-failure", "cache-hit", "two-events-one-parser-first-still-held", "backend-held", "semaphore-full", "wait-for-events-while-held",
-		"no-backends", "escaped-newline", "absent-date", "all-fields", "release-parked-before-hand-over", "forwarder-mode")
+		"no-backends", "escaped-newline", "absent-date", "all-fields", "release-parked-before-hand-over", "forwarder-mode", "forwarder-retry")
 	nBackends := e.Draw(4)
 	maxConc := e.Range(1, 3)
 	// forwarder mode: the pipeline ends in the real HttpForwarderHandlerV2 and the event must arrive
@@ -232,6 +232,19 @@ func (c19) Run(e *Env) {
 	nUnpeeked := 0
 	peeksSeen := 0
 	noMoreEvents := false
+	retryPending := map[string]bool{} // forwarder mode: event title -> an attempt was refused, the retry has not arrived yet
+	clearRetries := func() {
+		for _, b := range ebs {
+			if !b.http {
+				continue
+			}
+			for _, p := range b.gate.Parked() {
+				if r, ok := p.Arg.(*HTTPReq); ok {
+					delete(retryPending, r.Canon)
+				}
+			}
+		}
+	}
 	var httpBusy atomic.Int32
 	var waitCalls []*struct {
 		must    []string
@@ -340,7 +353,8 @@ func (c19) Run(e *Env) {
 			}
 			b.mu.Unlock()
 		}
-		if final || (held == 0 && httpBusy.Load() == 0) {
+		clearRetries()
+		if final || (held == 0 && httpBusy.Load() == 0 && len(retryPending) == 0) {
 			for _, x := range exps {
 				if !x.accepted || !x.released {
 					continue
@@ -534,7 +548,11 @@ func (c19) Run(e *Env) {
 		if !noMoreEvents && step > nSteps/2 {
 			canWait = 1
 		}
-		switch e.Weighted("c19", []int{canSend, canChange, 4 * len(outs), 5 * len(heldAll), canWait}) {
+		clearRetries()
+		switch e.Weighted("c19", []int{canSend, canChange, 4 * len(outs), 5 * len(heldAll), canWait, 3 * minInt(1, len(retryPending))}) {
+		case 5:
+			e.Event("back-off time passes")
+			time.Sleep(time.Duration(300+e.Draw(1500)) * time.Millisecond)
 		case 0:
 			sp := genEvent()
 			if !sp.viaHTTP && len(pendingTitle) > 0 && nParsers == 1 {
@@ -593,7 +611,15 @@ func (c19) Run(e *Env) {
 			e.Fault("backend-send-stall")
 			for _, b := range ebs {
 				if b.gate.Name == p.Gate {
-					b.release(p)
+					if r, isReq := p.Arg.(*HTTPReq); b.http && isReq && r.Attempt <= 2 && e.Chance(1, 3) { // at most two refusals per event: well inside the retry window
+						// the upstream refuses this attempt after reading the request; the forwarder retries after its back-off
+						retryPending[r.Canon] = true
+						e.Fault("upstream-5xx")
+						e.Probe("forwarder-retry")
+						b.gate.Release(p, HTTPOutcome{Kind: "status", Status: []int{500, 503}[e.Draw(2)]})
+					} else {
+						b.release(p)
+					}
 				}
 			}
 			if p.Gate == "yield" {
@@ -638,6 +664,11 @@ func (c19) Run(e *Env) {
 				progressed = true
 				e.Settle()
 			}
+		}
+		clearRetries()
+		if len(retryPending) > 0 {
+			time.Sleep(500 * time.Millisecond)
+			progressed = true
 		}
 		for _, p := range yg.gate.Parked() {
 			yg.gate.Release(p, nil)
